@@ -400,6 +400,12 @@ package pegnet
 //@ // value reported for PEG by the winning record (0 when the record has no PEG entry)
 //@ spec func pegReported(xs []opr.AssetUint, n int) int = n <= 0 ? 0 : (xs[n - 1].Name == "PEG" ? xs[n - 1].Value : pegReported(xs, n - 1))
 //@
+//@ // total capitalisation of the non-PEG assets: issuance of the asset a row is stored under, times its rate (rows are renamed
+//@ // to their pAsset name before they are stored; the equation phase looks the issuance up under that stored name)
+//@ spec func capUpTo(xs []opr.AssetUint, n int, iss gomap[fat2.PTicker]uint64) int =
+//@     n <= 0 ? 0 : capUpTo(xs, n - 1, iss) + (xs[n - 1].Name == "PEG" ? 0 : iss[tickerOf(xs[n - 1].Name)] * xs[n - 1].Value)
+//@ axiom pAssetNameIsNotPEG(): forall s string :: concat("p", s) != "PEG"
+//@
 //@ func (*Pegnet).InsertRates
 //@   props C12
 //@   requires @phase_by_height phase == pegPhaseAt(height)
@@ -408,17 +414,21 @@ package pegnet
 //@   ensures @error_is_not_a_reject_code !isRejectErr(result)
 //@   ensures @recorded result == nil ==> Lrated[height] && (forall x int :: x != height ==> (Lrated[x] <==> old(Lrated)[x]) && Lrate[x] == old(Lrate)[x])
 //@   ensures @undefined_phase phase == 0 ==> result != nil
+//@   ensures @rows_are_stored_under_the_pAsset_name result == nil ==> (forall k int :: 0 <= k && k < len(rates) ==> rates[k].Value == old(rates[k].Value) && (old(rates[k].Name) == "PEG" ==> rates[k].Name == "PEG") && (old(rates[k].Name) != "PEG" ==> rates[k].Name == concat("p", old(rates[k].Name))))
 //@   loop 1 invariant @range 0 <= iter && iter <= len(rates) && ratePEG != nil && fresh(ratePEG)
 //@   loop 1 invariant @reported ratePEG.V == old(pegReported(rates, iter)) && 0 <= ratePEG.V && ratePEG.V <= MaxUint64
+//@   loop 1 invariant @renamed_prefix forall k int :: 0 <= k && k < iter ==> rates[k].Value == old(rates[k].Value) && (old(rates[k].Name) == "PEG" ==> rates[k].Name == "PEG") && (old(rates[k].Name) != "PEG" ==> rates[k].Name == concat("p", old(rates[k].Name)))
 //@   loop 1 invariant @untouched_suffix forall k int :: iter <= k && k < len(rates) ==> rates[k].Name == old(rates[k].Name) && rates[k].Value == old(rates[k].Value)
 //@   loop 1 preserves old
 //@   loop 2 preserves old
 //@   loop 1 invariant @other_heights forall x int :: x != height ==> (Lrated[x] <==> old(Lrated)[x]) && Lrate[x] == old(Lrate)[x]
+//@   loop 2 invariant @capitalisation 0 <= iter && iter <= len(rates) && totalCapitalization.V == capUpTo(rates, iter, issuance)
+//@   loop 2 invariant @names_kept forall k int :: 0 <= k && k < len(rates) ==> rates[k].Value == old(rates[k].Value) && (old(rates[k].Name) == "PEG" ==> rates[k].Name == "PEG") && (old(rates[k].Name) != "PEG" ==> rates[k].Name == concat("p", old(rates[k].Name)))
 //@   loop 2 invariant @other_heights (forall x int :: x != height ==> (Lrated[x] <==> old(Lrated)[x]) && Lrate[x] == old(Lrate)[x]) && ratePEG != nil && fresh(ratePEG) && totalCapitalization != nil && fresh(totalCapitalization) && issuance != nil
 //@
 //@ // the PEG row: 0 in the zero phase, market-cap quotient (0 without PEG supply) in the equation phase, the reported value when floating
 //@ site-requires (*Pegnet).InsertRates | (*Pegnet).insertRate | 2
-//@   requires @peg_price_by_phase (phase == 1 ==> rate == 0) && (phase == 2 && issuance[fat2.PTickerPEG] == 0 ==> rate == 0) && (phase == 2 && issuance[fat2.PTickerPEG] != 0 && 0 <= totalCapitalization.V / issuance[fat2.PTickerPEG] && totalCapitalization.V / issuance[fat2.PTickerPEG] <= MaxUint64 ==> rate == totalCapitalization.V / issuance[fat2.PTickerPEG]) && (phase == 3 ==> rate == old(pegReported(rates, len(rates))))
+//@   requires @peg_price_by_phase (phase == 1 ==> rate == 0) && (phase == 2 && issuance[fat2.PTickerPEG] == 0 ==> rate == 0) && (phase == 2 && issuance[fat2.PTickerPEG] != 0 && 0 <= totalCapitalization.V / issuance[fat2.PTickerPEG] && totalCapitalization.V / issuance[fat2.PTickerPEG] <= MaxUint64 ==> rate == capUpTo(rates, len(rates), issuance) / issuance[fat2.PTickerPEG]) && (phase == 3 ==> rate == old(pegReported(rates, len(rates))))
 //@
 //@ func (*Pegnet).InsertGradeBlock
 //@   trusted
